@@ -71,7 +71,7 @@ func genSrc(rng *rand.Rand, k int) srcCase {
 	a, b, c := 1+rng.Intn(9), 1+rng.Intn(9), 10*(1+rng.Intn(9))
 	kd := srcKinds[rng.Intn(len(srcKinds))]
 	agg := srcKinds[rng.Intn(len(srcKinds)-1)] // not int
-	switch k % 22 {
+	switch k % 26 {
 	case 0: // F04-4: a variable declared from a literal in a loop body, captured by a closure
 		return srcCase{"closure-captures-literal-in-loop", "", srcHead + fmt.Sprintf(`func main() {
 	var fs []func() string
@@ -415,6 +415,88 @@ func main() {
 	fmt.Println(%s(pn))
 }
 `, n, kd.typ, []string{"len", "cap"}[rng.Intn(2)])}
+	case 21: // seeded change C04-3: a literal assigned to a variable / element / field / pointee reads the destination
+		return srcCase{"literal-reads-destination", "", srcHead + fmt.Sprintf(`type N struct {
+	A, B P
+	C    [2]int
+}
+
+func main() {
+	p := P{%d, %d}
+	q := &p
+	f := func() P { return p }
+	p = P{p.Y, p.X}
+	fmt.Println(p, *q, f())
+	p = P{Y: q.X, X: q.Y}
+	fmt.Println(p, *q)
+	p = P{X: p.Y}
+	fmt.Println(p, *q)
+	*q = P{q.Y + %d, q.X + 1}
+	fmt.Println(p, f())
+	n := N{P{1, 2}, P{3, 4}, [2]int{5, 6}}
+	pn := &n
+	n = N{n.B, n.A, [2]int{n.C[1], n.C[0]}}
+	fmt.Println(n)
+	n = N{A: P{n.B.Y, n.A.X}, C: [2]int{1: pn.C[0]}}
+	fmt.Println(n, *pn)
+	ps := []P{{%d, 2}, {3, %d}}
+	ps[0] = P{ps[0].Y, ps[1].X}
+	ps[1], ps[0] = P{ps[0].X, ps[0].Y}, P{ps[1].Y, ps[1].X}
+	fmt.Println(ps)
+	a := [3]int{%d, 2, 3}
+	a = [3]int{a[2], a[0], a[1]}
+	a = [3]int{2: a[0], 0: a[2]}
+	m := map[int]P{1: {7, 8}}
+	m[1] = P{m[1].Y, m[1].X}
+	n.A, n.B = P{n.B.X, n.A.Y}, P{X: n.A.X}
+	fmt.Println(a, m, n)
+	r := P{p.Y, p.X}
+	var s P = P{r.Y, r.X}
+	fmt.Println(r, s)
+}
+`, a, b, c, a, b, c)}
+	case 22: // open finding F04-19: `return b, a` with named results a, b
+		return srcCase{"return-permutes-named-results", "return-named-results-permuted", srcHead + fmt.Sprintf(`func sw() (a, b int) {
+	a, b = %d, %d
+	return b, a
+}
+
+func rot() (x, y, z P) {
+	x, y, z = P{1, 1}, P{2, 2}, P{%d, 3}
+	return z, x, y
+}
+
+func main() {
+	fmt.Println(sw())
+	fmt.Println(rot())
+}
+`, a, b+10, c)}
+	case 23: // open finding F04-20: the named result of a call aliases the variable the call is assigned to
+		return srcCase{"call-result-aliases-destination", "call-result-aliases-dest", srcHead + fmt.Sprintf(`func f(p *P) (r P) {
+	r.X = %d
+	r.Y = p.X
+	return
+}
+
+func main() {
+	g := P{%d, %d}
+	g = f(&g)
+	fmt.Println(g)
+}
+`, c, a, b)}
+	case 24: // open finding F04-21: a positional literal operand `pa[i].f` with pa a pointer to an array
+		lit := []string{"P{pa[1].Y, 8}", "P{(*pa)[1].Y, 8}", "[2]int{pa[1].Y, 0}", "[]int{pa[0].X}", "*(T{&b[1]}.Pt)", "*(T{&(*b)[0]}.Pt)"}[rng.Intn(6)]
+		return srcCase{"literal-operand-pointer-index-selector", "lit-operand-ptrarray-index-selector", srcHead + fmt.Sprintf(`type T struct{ Pt *int }
+
+func main() {
+	a := [3]P{{%d, 3}, {3, %d}, {4, 3}}
+	pa := &a
+	b := &[3]int{%d, 5, 6}
+	_, _ = pa, b
+	x := %s
+	fmt.Println(x)
+}
+`, a, b, c, lit)}
 	default: // 1c8103f: local blank assignments get their own slots; blank range variables
 		return srcCase{"blank-assignments-and-blank-loop-variables", "", srcHead + fmt.Sprintf(`func main() {
 	x, s, f := %s, "s", func() int { return %d }
